@@ -75,6 +75,10 @@ type History struct {
 	UUIDSeed uint64      `json:"uuid_seed"`
 	Stores   []StoreOpts `json:"stores"`
 	Txns     []TxnProg   `json:"txns"`
+	// Rival (crash checks): a transaction that adds keys nobody else uses; it runs and commits after the last
+	// transaction (the victim) has done its operations and before that one calls Commit, so the victim commits
+	// against a store somebody else has changed (conflict, refetch-and-merge, a root somebody else created).
+	Rival *TxnProg `json:"rival,omitempty"`
 }
 
 // GenHistory draws stores and transactions.
@@ -122,6 +126,9 @@ func (h History) Render() string {
 	}
 	for _, p := range h.Txns {
 		s += " " + p.String()
+	}
+	if h.Rival != nil {
+		s += " rival(commits before the last one's Commit):" + h.Rival.String()
 	}
 	return s
 }
